@@ -1387,6 +1387,13 @@ class Evaluator:
                 lo, hi = r
                 lo = lo or 0
                 return Slice(base.root, base.off + lo, (hi - lo) if hi is not None else (base.len - lo if base.len is not None else None))
+        if isinstance(base, tuple) and base and base[0] == "array" and isinstance(idx, Agg):
+            # a constant sub-range of a value-tracked array is the array of those elements
+            r = self.range_of(idx)
+            if r:
+                lo, hi = r[0] or 0, (r[1] if r[1] is not None else len(base) - 1)
+                if 0 <= lo <= hi <= len(base) - 1:
+                    return ("array",) + tuple(base[1 + lo:1 + hi])
         if isinstance(base, tuple) and base and base[0] == "array" and isinstance(idx, Bits) and idx.is_const():
             j = idx.value()
             if j + 1 < len(base):
@@ -1519,6 +1526,15 @@ class Evaluator:
                 hv = hook(n, args)
                 if hv is not None:
                     return hv
+        # iteration over a value-tracked array of known length: iter() is the array, any/all fold the closure over its elements
+        if args and isinstance(args[0], tuple) and args[0] and args[0][0] == "array":
+            if fn in ("core::slice::<impl [T]>::iter", "core::iter::IntoIterator::into_iter") or (res or "").endswith("IntoIterator>::into_iter"):
+                return args[0]
+            if name in ("any", "all") and "Iterator" in (res or fn) and len(args) == 2 and isinstance(args[1], tuple) and args[1] and args[1][0] == "closure":
+                acc = Cond("false" if name == "any" else "true")
+                for el in args[0][1:]:
+                    acc = self.logic("or" if name == "any" else "and", acc, self.as_cond(self.call_closure(args[1], [el], depth + 1)))
+                return acc
         # std helpers
         if "byteorder::LittleEndian" in fn or fn.startswith("byteorder::ByteOrder::read_") or "ByteOrder>::read_" in (res or ""):
             w = {"read_u16": 16, "read_u32": 32, "read_u64": 64}.get(name)
